@@ -2,6 +2,7 @@
 import html as htmlmod
 import itertools
 import json
+import os
 import re
 
 from common import run_model
@@ -251,6 +252,8 @@ def _md_of(doc):
                 out.append("```{toc}\n:min-level: %d\n:max-level: %d\n```\n" % (b["min"], b["max"]))
             else:
                 out.append("para toc\n")
+        elif b["k"] == "inc":
+            out.append("```{include} heads.md\n```\n")
         else:
             out.append("***\n")
     out.append("[r]: /ref\n")
@@ -260,12 +263,48 @@ def _md_of(doc):
 def _converter(m, doc):
     from mistune.toc import add_toc_hook
     from mistune.directives import FencedDirective, TableOfContents
+    inc = any(b["k"] == "inc" for b in doc["blocks"])
+    if inc:
+        from mistune.directives import Include
     if doc["mode"] == "hook":
-        md = m.create_markdown(escape=doc["escape"])
+        md = m.create_markdown(escape=doc["escape"], plugins=[FencedDirective([Include()])] if inc else None)
         add_toc_hook(md, doc["range"][0], doc["range"][1])
     else:
-        md = m.create_markdown(escape=doc["escape"], plugins=[FencedDirective([TableOfContents(1, 6)])])
+        md = m.create_markdown(escape=doc["escape"], plugins=[FencedDirective([TableOfContents(1, 6)] + ([Include()] if inc else []))])
     return md
+
+
+INC_HEADS = [{"k": "h", "level": 2, "md": "Inc two", "plain": "Inc two", "style": "atx"}, {"k": "h", "level": 3, "md": "Inc three", "plain": "Inc three", "style": "atx"}]
+
+
+def _heads(doc):
+    """the top-level headings in document order; an included Markdown file contributes its headings each time it is included"""
+    out = []
+    for b in doc["blocks"]:
+        if b["k"] == "h":
+            out.append(b)
+        elif b["k"] == "inc":
+            out += INC_HEADS
+    return out
+
+
+def _parse(md, doc, text):
+    if any(b["k"] == "inc" for b in doc["blocks"]):
+        import worker
+        path = os.path.join(worker.fixtures(), "main.md")
+        with open(path, "w", encoding="utf-8") as f:
+            f.write(text)
+        return md.read(path)
+    return md.parse(text)
+
+
+def _inc_docs(ctx, r, n):
+    """documents that include the same Markdown file (with headings of its own) once, twice or three times"""
+    docs = _docs(ctx, r, n)
+    for d in docs:
+        for _ in range(r.randint(1, 3)):
+            d["blocks"].insert(r.randint(0, len(d["blocks"])), {"k": "inc"})
+    return docs
 
 
 def _run_hook(m, doc):
@@ -315,11 +354,11 @@ def check_doc(m, doc, fails):
     md = _converter(m, doc)
     text = _md_of(doc)
     try:
-        out, state = md.parse(text)
+        out, state = _parse(md, doc, text)
     except Exception as e:  # noqa
         fails.append({"input": doc, "kind": "exception", "got": "%s: %s" % (type(e).__name__, e)})
         return
-    heads = [b for b in doc["blocks"] if b["k"] == "h"]
+    heads = _heads(doc)
     esc = (lambda s: m.escape(s)) if doc["escape"] else (lambda s: s.replace("&", "&amp;").replace("<", "&lt;"))
     if doc["mode"] == "hook":
         lo, hi = doc["range"]
@@ -376,7 +415,7 @@ def oracle(ctx, extra):
         check_render(s, render_toc_ul, fails)
         if len(fails) >= 5:
             break
-    docs = [e for e in extra if isinstance(e, dict)] + _docs(ctx, r, ctx.n(600, 10000))
+    docs = [e for e in extra if isinstance(e, dict)] + _docs(ctx, r, ctx.n(600, 10000)) + _inc_docs(ctx, r, ctx.n(120, 2000))
     nd = 0
     for d in docs:
         if len(fails) >= 8:
@@ -389,7 +428,7 @@ def oracle(ctx, extra):
                     "outside 1..6), output parsed by a strict ul/li/a reader and compared with the closest-preceding-"
                     "shallower tree; documents: random mixes of atx/setext headings with inline markup (star and underscore emphasis, code, inline and reference links, backslash escapes, & and <), paragraphs, "
                     "headings nested in quotes/lists (must be ignored), toc sections with ranges, via add_toc_hook and "
-                    "via the TableOfContents directive, escape on/off; ids, order, listed items, entry text checked; "
+                    "via the TableOfContents directive, escape on/off; a sixth of the documents converted with a file context and including one Markdown file with two headings one to three times (each inclusion contributes its headings); ids, order, listed items, entry text checked; "
                     "non-trivial = at least two distinct levels / at least one heading" % ctx.n(5, 7),
             "samples": [json.dumps(seqs[4000]), json.dumps(_md_of(docs[0]))]}
 
